@@ -58,16 +58,18 @@ func (e *endpoint) violate(prop, inv, detail string) {
 // faultPlan is drawn before the tasks start; positions are resolved against
 // the bytes pending at quiescent points.
 type faultPlan struct {
-	chunk     string // "all", "byte", "random", "small"
-	flipAt    int64  // absolute byte offset in the direction's stream to flip (-1 none)
-	flipDir   int    // 0 a->b, 1 b->a
-	flipBit   int
-	cutAt     int64 // absolute offset after which the direction is cut (-1 none)
-	cutDir    int
-	stallAt   int64 // absolute offset at which delivery stalls until a deadline fires (-1 none)
-	stallDir  int
-	resetAt   int
-	quantumMs int
+	chunk        string // "all", "byte", "random", "small"
+	flipAt       int64  // absolute byte offset in the direction's stream to flip (-1 none)
+	flipDir      int    // 0 a->b, 1 b->a
+	flipBit      int
+	flipWrite    int // if >= 0: the flip lands flipWriteOff bytes into that Write call of flipDir (resolved to flipAt once it has happened)
+	flipWriteOff int
+	cutAt        int64 // absolute offset after which the direction is cut (-1 none)
+	cutDir       int
+	stallAt      int64 // absolute offset at which delivery stalls until a deadline fires (-1 none)
+	stallDir     int
+	resetAt      int
+	quantumMs    int
 }
 
 // Session is one lock-step simulated connection.
@@ -93,7 +95,7 @@ func newSession(t *sim.Tape) *Session {
 	s.a, s.b = Pipe()
 	s.ea = &endpoint{name: "A", stats: sim.Stats{}, done: make(chan struct{})}
 	s.eb = &endpoint{name: "B", stats: sim.Stats{}, done: make(chan struct{})}
-	s.plan = faultPlan{chunk: "all", flipAt: -1, cutAt: -1, stallAt: -1}
+	s.plan = faultPlan{chunk: "all", flipAt: -1, flipWrite: -1, cutAt: -1, stallAt: -1}
 	return s
 }
 
@@ -147,6 +149,15 @@ func (s *Session) run(maxSteps int) {
 			continue
 		}
 		idle = 0
+		if s.plan.flipWrite >= 0 && s.plan.flipAt < 0 {
+			if at := dirs[s.plan.flipDir].writeStart(s.plan.flipWrite); at >= 0 {
+				if _, delivered, _ := dirs[s.plan.flipDir].stats(); at+int64(s.plan.flipWriteOff) >= delivered {
+					s.plan.flipAt = at + int64(s.plan.flipWriteOff)
+				} else {
+					s.plan.flipWrite = -1
+				}
+			}
+		}
 		d := ready[s.t.Choose(len(ready))]
 		h := dirs[d]
 		n := h.pendingLen()
